@@ -3808,7 +3808,7 @@ trb_ext_iter_next(ly_bool lysc_tree, void *exts, LY_ARRAY_COUNT_TYPE *i)
     } else {
         pe = exts;
         while (*i < LY_ARRAY_COUNT(pe)) {
-            if (trp_ext_parent_is_valid(0, &pe[*i])) {
+            if (pe[*i].record && trp_ext_parent_is_valid(0, &pe[*i])) {
                 ext = &pe[*i];
                 break;
             }
